@@ -4,10 +4,16 @@
    whose active word has tag p (act Register = the critical section of the primitive's internal
    lock); wake u = Some p when a waker popped that entry (sub-step SIssue, under the same lock) —
    "the wake-up was issued after the task registered"; both are reset when a new phase starts.
-   NOT proved (see notes/design/C02.md): agent_refines (simulation of Base/Agent.v; false as stated). *)
+   The layering theorem (end of this file, ag-agt7): the scheduler model refines the WEAK agent machine
+   of Model/WeakAgent.v (W1 spurious wake-ups allowed, W2 no resume issued after registration is
+   lost), and Base/Agent.v's interface is an instance of that machine.  agent_refines as sketched in
+   the plan (token cleared at every phase end) stays false: C02_wakeup_crosses_phases_refuted. *)
 From Coq Require Import List NArith.
-From Pika Require Import Base.Conc Gen.GenEnums Model.Sched Proofs.SchedProofs Proofs.SchedWakeProofs
-  Proofs.SchedRecycleProofs Proofs.SchedDeltaProofs Proofs.SchedAbortProofs Proofs.SchedAcceptProofs.
+From Pika Require Import Base.Conc Base.Agent Gen.GenEnums Model.Sched Model.WeakAgent Proofs.SchedProofs
+  Proofs.SchedWakeProofs Proofs.SchedRecycleProofs Proofs.SchedDeltaProofs Proofs.SchedAbortProofs
+  Proofs.SchedAcceptProofs Proofs.WeakAgentProofs.
+From Pika Require Model.Mutex Model.CondVar Model.Semaphore Model.Latch Model.Event Model.Once Model.Join
+  Proofs.AgentUseProofs.
 Import ListNotations.
 
 (* reachable /\ stuck (nothing can move any more; the pool has at least one worker) => no task is
@@ -139,4 +145,168 @@ Proof.
   rewrite (surjective_pairing (sched_run nv_sched nv_ext)).
   apply stuck_intro; [vm_compute; reflexivity | vm_compute; reflexivity | vm_compute; reflexivity |].
   intros a. destruct a as [|[|[|a]]]; vm_compute; auto.
+Qed.
+
+(* ================================================================== the layering theorem (ag-agt7)
+   Model/WeakAgent.v: per task {wmode : MRun | MBlk | MDone; wreg; wowed}, labels (kind, task) with
+   kind in Reg Susp Res Wake Yield Term; wa_tstep is the transition function of one task:
+     Reg   MRun -> wreg := true              Susp  MRun -> MBlk (flags kept)
+     Res   any mode: wowed := wowed || wreg; wreg := false
+     Wake  MBlk -> MRun, flags cleared       (W1: enabled whenever blocked, owed or not)
+     Yield MRun -> MRun, flags cleared       Term  MRun -> MDone, flags cleared
+   wa_must (Wake,t) c = t is blocked and owed: the step the implementation is obliged to take (W2);
+   wa_stuck c = no obligatory step is outstanding.
+   The abstraction wa_abs maps a configuration of Model/Sched.v to a configuration of the machine,
+   indexed by task INCARNATION: mode from the state word (suspended -> MBlk, terminated -> MDone,
+   pending / pending_boost / active -> MRun), wreg / wowed from the ghost fields reg / wake provided
+   the word is still (active,p) or (suspended,p+1) for the recorded phase p; an incarnation whose
+   object was recycled is MDone, one that does not exist yet is in the initial state.
+   lbl_of reads the label of a step off the configuration before it: Reg = act Register, Res =
+   sub-step SIssue (the waker pops the entry under the primitive's lock), Susp / Yield / Term = the
+   store_state CAS that publishes suspended / pending, pending_boost / terminated, Wake = the
+   successful suspended -> pending CAS of set_thread_state; every other step is silent. *)
+
+(* every step of every reachable configuration of the scheduler model, under every oracle, is
+   zero or one step of the weak agent machine between the abstractions; hence the projection of
+   every run (all schedules, all thread counts, all programs of tasks and OS threads) on the labels
+   is a run of the weak agent machine *)
+Theorem C02_sched_refines_weak_agent : forall sched ext,
+  let c := sched_run sched ext in
+  wa_run (sched_trace sched ext) wa_init (wa_abs (fst c)) /\
+  (forall a o,
+     match lbl_of (fst c) (snd c a) with
+     | None => forall i, wa_abs (fst (tstep o a (fst c) (snd c a))) i = wa_abs (fst c) i
+     | Some l => wa_step l (wa_abs (fst c)) (wa_abs (fst (tstep o a (fst c) (snd c a))))
+     end).
+Proof. exact sched_refines_weak_agent_full. Qed.
+Print Assumptions C02_sched_refines_weak_agent.
+
+(* in particular, per task incarnation: the events of incarnation i along any run replay in the
+   machine (every label is enabled when it occurs) and lead to the abstraction of i's state *)
+Theorem C02_sched_incarnation_behaviour : forall sched ext i,
+  wa_replay (wa_proj i (sched_trace sched ext)) wa_init_task = Some (wa_abs (fst (sched_run sched ext)) i).
+Proof. exact sched_incarnation_replay. Qed.
+Print Assumptions C02_sched_incarnation_behaviour.
+
+(* W1 in the machine: a blocked task can be woken at any time *)
+Theorem C02_weak_agent_wake_any_time : forall c t,
+  wmode (c t) = MBlk -> exists c', wa_step (KWake, t) c c'.
+Proof. exact wa_wake_enabled. Qed.
+Print Assumptions C02_weak_agent_wake_any_time.
+
+(* W2 in the machine, on observable events only.  lost_pattern p: the events p of one task end
+   with  Reg, .., Res, ..  where the dots contain no Wake / Yield / Term and a Susp occurs after
+   the Reg — "a registered-and-resumed waiter is still suspended".  In every run of the machine
+   that is EXACTLY the situation in which the Wake of that task is obligatory (wowed is set by a
+   Res after Reg and by nothing else, and is cleared only by Wake / Yield / Term); an obligatory
+   step is enabled; so no configuration in which the machine may stop shows the pattern *)
+Theorem C02_weak_agent_no_lost_resume : forall tr c,
+  wa_run tr wa_init c ->
+  (forall t, lost_pattern (wa_proj t tr) <-> wa_must (KWake, t) c) /\
+  (forall l, wa_must l c -> exists c', wa_step l c c') /\
+  (wa_stuck c -> forall t, ~ lost_pattern (wa_proj t tr)).
+Proof. exact weak_agent_no_lost_resume. Qed.
+Print Assumptions C02_weak_agent_no_lost_resume.
+
+(* ... hence in Sched.v, by the simulation and C02_no_lost_wakeup: a stuck configuration of the
+   scheduler model (a worker exists) is abstracted to a configuration in which the machine may
+   stop, and no task incarnation's projected event sequence shows the pattern *)
+Theorem C02_sched_no_lost_resume : forall sched ext w,
+  ext w = None ->
+  let c := sched_run sched ext in
+  stuck c ->
+  wa_stuck (wa_abs (fst c)) /\ forall i, ~ lost_pattern (wa_proj i (sched_trace sched ext)).
+Proof. exact sched_no_lost_resume. Qed.
+Print Assumptions C02_sched_no_lost_resume.
+
+(* Base/Agent.v read in the machine (ag_abs: blocked -> MBlk / MRun; the token is NOT part of the
+   weak state; greg / gowed are ghosts: registration is the primitive's own queue).  ag_fun op is
+   literally the function of Base/Agent.v the operation applies.  Each operation (total: the only
+   side condition is that a thread registers while it is not blocked; ag_wf = a blocked agent holds
+   no token) stands for the weak-agent steps ag_kinds:
+     a_suspend  Returned -> Susp; Wake (possibly spurious)     Blocked -> Susp
+     a_resume   of a blocked agent -> Res; Wake                of a running one -> Res (token kept)
+     stale resume (OSpur / CSpur / ESpur / StaleResume / AResume: a_resume again, or the literal
+                {| tok := true; blocked := false |})
+                of a blocked agent -> a spurious Wake          of a running one -> nothing (token)
+     a_phase_end -> Yield                                      registration -> Reg
+     (a_suspend / a_phase_end applied to a blocked agent: nothing)
+   and it preserves ag_wf and ag_w2: an owed wake-up is held as the token of a running agent *)
+Theorem C02_agent_interface_is_weak_agent : forall op s,
+  ag_pre op s -> ag_wf s ->
+  ag (ag_step op s) = ag_fun op (ag s) /\
+  wa_replay (ag_kinds op s) (ag_abs s) = Some (ag_abs (ag_step op s)) /\
+  ag_wf (ag_step op s) /\
+  (ag_w2 s -> ag_w2 (ag_step op s)).
+Proof. exact agent_interface_is_weak_agent. Qed.
+Print Assumptions C02_agent_interface_is_weak_agent.
+
+(* so every sequence of operations on an agent is a behaviour of the weak machine, the agent is
+   never blocked while owed, and its events never show the lost pattern *)
+Theorem C02_agent_runs_are_weak_agent_runs : forall ops s ks,
+  ag_runs ops ag_init s ks ->
+  wa_replay ks wa_init_task = Some (ag_abs s) /\ ag_w2 s /\
+  ~ (blocked (ag s) = true /\ gowed s = true) /\ ~ lost_pattern ks.
+Proof. exact agent_runs_weak_agent. Qed.
+Print Assumptions C02_agent_runs_are_weak_agent_runs.
+
+(* "as used by the primitive models": one step of each of the seven models changes the
+   agent_state of any thread u by exactly one operation of the interface (ag_iface_upd a a' :=
+   exists op, a' = ag_fun op a; OpReg is the identity), whatever the oracle, the thread and the
+   state — C06 mutex, C07 condition variable, C08 semaphore, C09 latch / event / call_once, C13 join *)
+Theorem C02_primitive_models_use_the_interface :
+  (forall late t g l u, ag_iface_upd (Mutex.ag g u) (Mutex.ag (fst (Mutex.mx_tstep late t g l)) u)) /\
+  (forall isos late t g l u, ag_iface_upd (CondVar.cag g u) (CondVar.cag (fst (CondVar.cv_tstep isos late t g l)) u)) /\
+  (forall kind passed t g l u,
+     ag_iface_upd (Semaphore.ag g u) (Semaphore.ag (fst (Semaphore.sem_tstep kind passed t g l)) u)) /\
+  (forall fixed o t g l u, ag_iface_upd (Latch.ag g u) (Latch.ag (fst (Latch.latch_tstep fixed o t g l)) u)) /\
+  (forall o t g l u,
+     ag_iface_upd (Event.eag (Event.est g) u) (Event.eag (Event.est (fst (Event.e_tstep o t g l))) u)) /\
+  (forall o t g l u,
+     ag_iface_upd (Event.eag (Once.oev g) u) (Event.eag (Once.oev (fst (Once.o_tstep o t g l))) u)) /\
+  (forall lp tgt x t g l u, ag_iface_upd (Join.ag g u) (Join.ag (fst (Join.tstep lp tgt x t g l)) u)).
+Proof. exact AgentUseProofs.primitive_models_use_the_interface. Qed.
+Print Assumptions C02_primitive_models_use_the_interface.
+
+(* ... hence, for ANY model over Base/Conc.v whose steps change agents only through the interface:
+   along every run the agent of every thread goes through a sequence of interface operations, and
+   that sequence is a behaviour of the weak agent machine (in the run derived here nothing is ever
+   registered; C02_agent_runs_are_weak_agent_runs covers every way of inserting registrations) *)
+Theorem C02_model_agent_is_weak_agent :
+  forall (G L O : Type) (tstep : O -> nat -> G -> L -> G * L) (agf : G -> nat -> agent_state),
+  (forall o t g l u, ag_iface_upd (agf g u) (agf (fst (tstep o t g l)) u)) ->
+  forall sched c u, agf (fst c) u = a_init ->
+  exists ops s ks,
+    ag_runs ops ag_init s ks /\ ag s = agf (fst (run tstep sched c)) u /\
+    wa_replay ks wa_init_task = Some (ag_abs s) /\ ag_w2 s /\
+    ~ (blocked (ag s) = true /\ gowed s = true) /\ ~ lost_pattern ks.
+Proof. exact AgentUseProofs.model_agent_is_weak_agent. Qed.
+Print Assumptions C02_model_agent_is_weak_agent.
+
+(* non-vacuity: a run of the scheduler model whose projection exercises Reg, Res, Susp, Wake — the
+   first Wake is the owed one, the second is spurious (the resume found T running and not
+   registered; its retry helper ends the suspension that closes that phase: EvSpur) *)
+Example C02_example_weak_trace :
+  sched_trace wx_sched wx_ext =
+    [(KReg, 0); (KRes, 0); (KSusp, 0); (KWake, 0); (KRes, 0); (KSusp, 0); (KTerm, 1); (KWake, 0)] /\
+  (* just before the first Wake: blocked and owed — the obligatory step; the pattern is there *)
+  wa_abs (fst (sched_run (firstn 18 wx_sched) wx_ext)) 0 = {| wmode := MBlk; wreg := false; wowed := true |} /\
+  lost_pattern (wa_proj 0 (sched_trace (firstn 18 wx_sched) wx_ext)) /\
+  (* just before the second Wake: blocked, nothing owed — W1 *)
+  wa_abs (fst (sched_run (firstn 42 wx_sched) wx_ext)) 0 = {| wmode := MBlk; wreg := false; wowed := false |} /\
+  In (EvSpur 0 5) (log (fst (sched_run wx_sched wx_ext))).
+Proof.
+  split; [vm_compute; reflexivity|]. split; [vm_compute; reflexivity|].
+  split; [exists [], [], [KSusp]; vm_compute; repeat split; [intros k [<-|[]]; reflexivity | now left]|].
+  split; [vm_compute; reflexivity|]. vm_compute. tauto.
+Qed.
+(* and the interface: Reg; resume (token, owed); suspend returns at once; resume of a running,
+   unregistered agent; suspend returns spuriously; suspend blocks; a stale resume wakes it *)
+Example C02_example_agent_run :
+  exists s ks, ag_runs [OpReg; OpResume; OpSuspend; OpResume; OpSuspend; OpSuspend; OpStale] ag_init s ks /\
+               ks = [KReg; KRes; KSusp; KWake; KRes; KSusp; KWake; KSusp; KWake] /\ s = ag_init.
+Proof.
+  eexists. eexists. split.
+  - repeat (eapply ar_cons; [vm_compute; auto|]). apply ar_nil.
+  - vm_compute. split; reflexivity.
 Qed.
